@@ -45,6 +45,14 @@ CHECKS = {
          "For 7 prefixes and every ordered pair (plus a stride of flat/nested triples) of 24 branch goals (bindings, disequalities, domain narrowing, FD propagators incl. distinctfd's shared constraint object, CLP(Z), user-state updates, nested conde, project, fail) the multiset of final states of `prefix, conde{A,B}` — reified terms, reported disequalities, per-branch user trail and open-constraint counter of an instrumented User — equals the union of the branches run alone.",
          "Differential oracle: judges isolation, not the correctness of each branch goal; d=0 quick / 1 thorough.",
          "4/C10"),
+ "C11": ("bounded-exhaustive generator x body x nesting programs around project, differential against the body alone (E3)",
+         "7 generators reaching the project goal with 1..4 states x 7 bodies (relational reads, an fngoal inspecting the projected term, reads delayed behind closures and branching) x 4 nestings: for ground values `project |x| { body }` has the answers of `body` and never panics.",
+         "Project goals are built as the macro builds them (names rebound to Projection terms once). One known finding (a project goal reached twice panics).",
+         "4/C11"),
+ "C12": ("bounded-exhaustive collections x bodies for `for`/everyg, differential against the explicit conjunction and the reference semantics (E3)",
+         "12 collections of 0..3 terms (ground, repeated, shared variables, nested) as Vec<LTerm> and as LTerm list x 12 bodies x 3 contexts: answers equal those of the explicit conjunction of instantiated bodies (instance-set multisets) and of the reference semantics; the empty collection behaves as true.",
+         "The collection is fixed at goal construction (documented reading).",
+         "4/C12"),
  "C16": ("bounded-exhaustive FD programs x deviation-bounded hash-order schedules vs brute force (E3 x E2)",
          "Every program of three FD tiers (one constraint: all kinds x all operand patterns/aliasings/constants x all domain assignments x all statement orders; two-three constraints mixed with ==, pre-bound and fully ground operands; answers shaped as lists/compounds, hidden variables, conde) is run under every schedule of the hash-ordered iterations with <= d deviations plus all-reversed; every answer must be a brute-force solution.",
          "Domains inside [-2, 3]; d=1 quick (T1) / 2; well-formed programs only (every FD operand has a domain or is an integer).",
@@ -73,6 +81,10 @@ CHECKS = {
          "All ordered sequences of 2-3 == / != statements (incl. subsuming and multi-binding disequalities), sequences with a two-arm conde, and FD programs run with a User type counting with_constraint/take_constraint and logging process_extension; probes before/after every statement and every answer state: with - take == stored constraints; each successful == triggers process_extension once with exactly unify_rec's new bindings; the statements seen by an answer's user state form one program path (per-branch cloning).",
          "Statement alphabet of 10 tree + 7 FD statements; d=1 quick / 2 thorough on the store iteration sites.",
          "4/C22"),
+ "C23": ("panic monitor re-running every family of the framework under catch_unwind (all explorers)",
+         "Every generator of the framework (20 families: unification, disequality, reification, reordering, engine exploration, committed choice, iteration, isolation, project, for, FD tiers, CLP(Z), compound twins, LTerm API, user hooks, list relations, FiniteDomain) is re-run with its well-formedness filter; every panic other than the harness's step-budget signal is reported with its site; process aborts are attributed by the supervisor.",
+         "Coverage is the union of the other checks' coverage at the same tier. One known finding (project).",
+         "4/C23"),
  "C24": ("bounded-exhaustive argument modes of every list relation vs Vec definitions on ground instances (E3)",
          "member, member1, append, rember, permute, distinct, cons, first, rest, empty in every combination of ground / partially ground / fresh arguments over short lists on {1,2,3} (plus aliased arguments): every instance of every answer satisfies the Vec definition; every satisfying ground tuple of a small universe is covered by an answer; member one answer per position, member1 one per distinct value.",
          "Non-terminating modes judged on 120 answers / 400000 steps; instances that put a non-list where a list is expected are not judged. One known finding (permute).",
